@@ -19,7 +19,10 @@ NSHARDS = 16
 
 def shard_args(tier, seed):
     u, k = BUDGET[tier]
-    return [{"universes": u // NSHARDS, "searches": k, "seed": seed * 1000 + i, "brackets": tier == "thorough"} for i in range(NSHARDS)]
+    shards = [{"universes": u // NSHARDS, "searches": k, "seed": seed * 1000 + i, "brackets": tier == "thorough"} for i in range(NSHARDS)]
+    if tier == "thorough":
+        shards.append({"universes": 0, "searches": 0, "seed": seed, "suite": True})   # the repository's own tests under the M-find monitor
+    return shards
 
 
 def floors(m, tier):
@@ -151,6 +154,11 @@ def worker(args):
             pass
         return rec.result()
     aliases = list(model.alias)
+    if args.get("suite"):
+        from lib import suite_shard
+        state["variant"], state["uid"] = "repo_tests", "suite"
+        suite_shard.run_repo_tests(rec)
+        return rec.result()
     for u in range(args["universes"]):
         names = None
         if args.get("brackets") and rng.random() < 0.15:
